@@ -92,6 +92,23 @@ def judge(R, tag, obj, rng, knots, tref, cons, wit, expect_data):
                             % (wit.get('what'), prop, T, r[1], type(r[1]).__name__), wit)
             else:
                 R.outcomes['inside:finite'] += 1
+    if rng is not None and hasattr(obj, 'spline') and outside:
+        # ThermochemRawData accepts arrays for Cp: one outside element is enough
+        import numpy as np
+        mid = 0.5 * (rng[0] + rng[1])
+        for T in outside:
+            R.evals += 1
+            R.nontrivial += 1
+            for arr in (np.array([mid, T]), np.array([T, mid]), np.array([mid, mid, T])):
+                r = E.ev(obj.get_CpoR, arr)
+                if r[0] != 'exc':
+                    R.outcomes['outside:array-unsignalled'] += 1
+                    R.violation('outside-unsignalled:%s:array' % tag,
+                                '%s: get_CpoR(%r) with one temperature outside %r returned %r'
+                                % (wit.get('what'), list(arr), rng, r[1]), wit)
+                    break
+            else:
+                R.outcomes['outside:array-raises'] += 1
     for T in outside:
         for prop in P3:
             R.evals += 1
